@@ -1,6 +1,9 @@
 import FastorModel.Proofs.InverseRec
 import FastorModel.Proofs.InverseTri
 import FastorModel.Proofs.InversePiv
+import FastorModel.Proofs.InverseSse
+import FastorModel.Proofs.InverseLU
+import Mathlib.LinearAlgebra.Matrix.Determinant.Basic
 /-!
 # C10 — `inverse(A)` times `A` is the identity, for every size and every computation type
 
@@ -140,5 +143,68 @@ theorem batched_inverse_correct (J : Nat) (h1 : 1 ≤ J) (h4 : J ≤ 4) (a : Nat
         ((b * (J * J) + (i * J + j)) % (J * J))
       = leafFlat J (flat J (unflat J (fun q => a (b * (J * J) + q)))) (i * J + j)
   rw [e1, e2, hfl]
+
+
+/-- **sse_leaf_kernels_correct** — the SSE intrinsic leaf kernels `_inverse<float,4>`, `_inverse<double,4>`,
+    `_inverse<float,2>`, `_inverse<double,2>` (hand models `Sse.inv4f`, `Sse.inv4d`, `Sse.inv2f`, `Sse.inv2d` of Model/InverseSse.lean: registers as lane
+    tuples, every shuffle immediate / `movelh` / `movehl` / `_ss` form / sign mask as in the source; the floating point
+    operations read as field operations) return, on every matrix with non-zero determinant, exactly the matrix of the
+    scalar closed form — the inverse. -/
+theorem sse_leaf_kernels_correct (A : Mat K) :
+    (leafDet 4 (flat 4 A) ≠ 0 →
+      toMat 4 4 (unflat 4 (Sse.inv4f (flat 4 A))) = toMat 4 4 (leafInv 4 A)
+      ∧ toMat 4 4 (unflat 4 (Sse.inv4d (flat 4 A))) = toMat 4 4 (leafInv 4 A)
+      ∧ toMat 4 4 (unflat 4 (Sse.inv4f (flat 4 A))) * toMat 4 4 A = 1
+      ∧ toMat 4 4 (unflat 4 (Sse.inv4d (flat 4 A))) * toMat 4 4 A = 1) ∧
+    (leafDet 2 (flat 2 A) ≠ 0 →
+      toMat 2 2 (unflat 2 (Sse.inv2f (flat 2 A))) = toMat 2 2 (leafInv 2 A)
+      ∧ toMat 2 2 (unflat 2 (Sse.inv2d (flat 2 A))) = toMat 2 2 (leafInv 2 A)
+      ∧ toMat 2 2 (unflat 2 (Sse.inv2f (flat 2 A))) * toMat 2 2 A = 1
+      ∧ toMat 2 2 (unflat 2 (Sse.inv2d (flat 2 A))) * toMat 2 2 A = 1) := by
+  refine ⟨fun h => ?_, fun h => ?_⟩
+  · have h1 := leaf_of_flat 4 A Sse.inv4f (Sse.inv4f_flat _ h)
+    have h2 := leaf_of_flat 4 A Sse.inv4d (Sse.inv4d_flat _ h)
+    have h0 := leaf_left 4 (by omega) (by omega) A h
+    exact ⟨Sse.left_inv_unique _ _ _ h1 h0, Sse.left_inv_unique _ _ _ h2 h0, h1, h2⟩
+  · have h1 := leaf_of_flat 2 A Sse.inv2f (Sse.inv2f_flat _ h)
+    have h2 := leaf_of_flat 2 A Sse.inv2d (Sse.inv2d_flat _ h)
+    have h0 := leaf_left 2 (by omega) (by omega) A h
+    exact ⟨Sse.left_inv_unique _ _ _ h1 h0, Sse.left_inv_unique _ _ _ h2 h0, h1, h2⟩
+
+
+/-- **inverse_lu_correct** — the LU based strategies (`inverse<SimpleLU|BlockLU|SimpleLUPiv|BlockLUPiv>`), relative to
+    the LU postcondition (property C11): for ANY `L`, `U` — whichever of `_lufact`, `lu_simple_dispatcher`,
+    `recursive_lu_dispatcher`, `lu_block_dispatcher` produced them — such that (strict lower triangle of `L` with unit
+    diagonal)·(upper triangle of `U`) = `apply_pivot(A,p)`, `p` a permutation (`pivot_perm`; the identity for the
+    unpivoted strategies) and `U(i,i) ≠ 0`, the matrix returned by `get_lu_inverse(L,U,p)`
+    (`forward_subs` then `backward_subs`, transcribed with their `_inner` sums and the reversed fill order) satisfies
+    `X·A = 1 ∧ A·X = 1`, for every size.  Only the entries of `L`, `U` that the substitutions read are constrained
+    (the public `inverse<SimpleLU>` passes uninitialised `L`, `U` tensors to `lu`). -/
+theorem inverse_lu_correct (M : Nat) (A L U : Mat K) (p : Vec Nat) (hp : IsPermOn M p.get)
+    (hU : ∀ i < M, U i i ≠ 0)
+    (hLU : toMat M M (unitLowerPart L) * toMat M M (triu U) = toMat M M (applyPivot A p)) :
+    toMat M M (getLuInverse M L U p) * toMat M M A = 1 ∧ toMat M M A * toMat M M (getLuInverse M L U p) = 1 :=
+  getLuInverse_correct M A L U p hp hU hLU
+
+/-- the hypotheses are met, e.g., by `L = [[1,0],[2,1]]`, `U = [[1,3],[0,1]]`, `A = L·U`, `p = id` -/
+example : toMat 2 2 (unitLowerPart ({ get := fun i j => if i = 1 ∧ j = 0 then (2 : ℚ) else if i = j then 1 else 0 } : Mat ℚ))
+      * toMat 2 2 (triu ({ get := fun i j => if i = 0 ∧ j = 1 then (3 : ℚ) else if i = j then 1 else 0 } : Mat ℚ))
+    = toMat 2 2 (applyPivot ({ get := fun i j => if i = 0 then (if j = 0 then (1 : ℚ) else 3) else (if j = 0 then 2 else 7) } : Mat ℚ)
+        { get := id }) := by
+  ext i j
+  fin_cases i <;> fin_cases j <;> simp [Matrix.mul_apply, Fin.sum_univ_succ, unitLowerPart, triu, applyPivot] <;> norm_num
+
+/-- **det_closed_form** — the determinant expression the closed forms divide by (`det` of `_inverse<T,n>`, the same
+    cofactor expansions `_det<T,n,n>` of backend/determinant.h uses) is the Leibniz determinant, `n ≤ 4` -/
+theorem det_closed_form (A : Mat K) :
+    leafDet 1 (flat 1 A) = (toMat 1 1 A).det ∧ leafDet 2 (flat 2 A) = (toMat 2 2 A).det
+      ∧ leafDet 3 (flat 3 A) = (toMat 3 3 A).det ∧ leafDet 4 (flat 4 A) = (toMat 4 4 A).det := by
+  refine ⟨?_, ?_, ?_, ?_⟩
+  · simp [leafDet, flat, Matrix.det_fin_one]
+  · simp [leafDet, flat, Matrix.det_fin_two]; ring
+  · simp [leafDet, flat, Matrix.det_fin_three]; ring
+  · rw [Matrix.det_succ_row_zero]
+    simp [Fin.sum_univ_succ, Matrix.det_fin_three, Matrix.submatrix_apply, Fin.succAbove, leafDet, flat]
+    ring
 
 end Fastor.C10
